@@ -576,6 +576,7 @@ func (c *ctx) sortedMapCase(ix *index) {
 		ks = append(ks, ks[0]+1, 0)
 	}
 	idxNow := logb
+	written := 0 // tombstones this map instance has written to the .idx so far
 	for si, k := range ks {
 		p := ix.pos(k)
 		kind := "present"
@@ -603,14 +604,12 @@ func (c *ctx) sortedMapCase(ix *index) {
 			landed := "other"
 			// hypothesis: the tombstone went to the map's own write offset, which starts at 0 instead of the file size
 			sim := append([]byte{}, idxNow...)
-			at := int(r.Counter("sdx_tombstones_written_this_map")) * E
+			at := written * E
 			if kind == "present" && at+E <= len(sim) {
 				copy(sim[at:], enc(entry{k, delOff, -1}))
 				if bytes.Equal(sim, gotIdx) {
 					landed = "write-offset-starts-at-zero"
 				}
-			} else if kind == "present" && at == len(sim) {
-				landed = "other"
 			}
 			if r.Violation(c.sig(lib.Sig{"op": "sorted-map-delete", "class": "idx-tombstone-not-appended", "landed": landed, "key": kind}),
 				c.detail(ix, map[string]interface{}{"key": k, "step": si, "idx_len": len(gotIdx), "want_len": len(wantIdx), "diff_at": diffPositions(gotIdx, wantIdx),
@@ -622,7 +621,7 @@ func (c *ctx) sortedMapCase(ix *index) {
 			}
 		}
 		if kind == "present" {
-			r.Count("sdx_tombstones_written_this_map", 1)
+			written++
 		}
 		idxNow = wantIdx
 		if err != nil {
@@ -666,7 +665,6 @@ func (c *ctx) sortedMapCase(ix *index) {
 			return
 		}
 	}
-	r.Counter("sdx_tombstones_written_this_map")
 	nm.Close()
 	closed = true
 	// reload from the .idx alone
@@ -737,8 +735,6 @@ func main() {
 	for i := 0; i < nIdx; i++ {
 		ix := genIndex(r.SubRng(fmt.Sprintf("c07-idx-%d", i)), i, maxN)
 		c.ecCase(ix, false)
-		// per-map counter used by the idx classification
-		r.Count("sdx_tombstones_written_this_map", -r.Counter("sdx_tombstones_written_this_map"))
 		c.sortedMapCase(ix)
 		if i < 3 {
 			s := map[string]interface{}{"build": build, "index": i, "entries": len(ix.Keys), "log_len": len(ix.Log)}
@@ -751,7 +747,6 @@ func main() {
 			break
 		}
 	}
-	r.Count("sdx_tombstones_written_this_map", -r.Counter("sdx_tombstones_written_this_map"))
 	r.Note("offset_width_of_this_process", types.OffsetSize)
 	if r.Counter("ec_delete_present") == 0 || r.Counter("find_checks") == 0 || r.Counter("rebuild_checks") == 0 || r.Counter("idx_from_ec_checks") == 0 {
 		r.Inconclusive("build " + build + ": an oracle never ran (deletes/find/rebuild/idx-from-ec)")
